@@ -216,7 +216,7 @@ def run(ctx):
         for st_, tg in key_stores(ast.Module([s], [])) if isinstance(
                 s, (ast.Assign, ast.AugAssign)) else []:
             upd[tg.slice.value].append(nn)
-            upd_values[tg.slice.value].append((s, names_in(s.value)))
+            upd_values[tg.slice.value].append((s, _update_names(s, tg)))
         # helper(header, lo, hi) that stores the keys on its parameter --
         # called as a statement, in an assignment or in the return itself
         if not isinstance(s, (ast.Expr, ast.Assign, ast.Return)):
@@ -234,7 +234,7 @@ def run(ctx):
                         upd[tg.slice.value].append(nn)
                         upd_values[tg.slice.value].append(
                             (s, {bind.get(x, x) for x in
-                                 names_in(st_.value)}))
+                                 _update_names(st_, tg)}))
     rets = [nn for nn, s in g.stmt.items() if g.kind[nn] == "return"]
     if not rets:
         raise AnalysisError("C20-R2: no return statement")
@@ -386,6 +386,23 @@ def run(ctx):
              "multiple of the factor) still expands (shared with C15-R1)")
     from .c15 import presence_rule
     presence_rule(ctx, prog, "C20-R8")
+
+
+def _update_names(st, tg):
+    """names the new value depends on, not counting the old value of the
+    same header card (header[k] = header[k] - lo  is  header[k] -= lo)"""
+    used = set(names_in(st.value))
+    if any(isinstance(x, ast.Subscript) and norm(x) == norm(tg)
+           for x in ast.walk(st.value)):
+        rest = set()
+        for x in ast.walk(st.value):
+            if isinstance(x, ast.Name) and not any(
+                    isinstance(y, ast.Subscript) and norm(y) == norm(tg) and
+                    any(z is x for z in ast.walk(y))
+                    for y in ast.walk(st.value)):
+                rest.add(x.id)
+        used = rest
+    return used
 
 
 def _sliced_by(fnode, e, lo, hi, depth=0):
